@@ -58,6 +58,10 @@ EdgeShapes == { Shape(v, a, m, al, "e", 0, 0, 0) : v \in V, a \in Edges, m \in {
          \cup { Shape(v, a, m, al, "e", 0, 0, 0) : v \in V, a \in {0, 2}, m \in Edges, al \in {0, 1} }
          \cup { Shape(v, e, e + 1, 1, "s", 1, 1, 0) : v \in V, e \in {65, 129, 257} }
 
+\* messages above 2^18 bytes = 2^16 words (and 2^20 in the thorough tier): a 16-bit word or block counter wraps here
+XLong == { Shape(v, IF v = 192 THEN 0 ELSE 3, m, IF v = 256 THEN 1 ELSE 0, "e", 0, 0, 0) :
+             v \in V, m \in IF Thorough THEN {262149, 1048579} ELSE {262149} }
+
 RoundTrip == Lengths \cup Long \cup Align \cup EdgeShapes
 
 (***************************************************************************)
@@ -94,6 +98,7 @@ Plan == CASE Family = "roundtrip" -> RoundTrip
           [] Family = "tamper"    -> Tamper
           [] Family = "sivfam"    -> SivFamilies
           [] Family = "big"       -> Big
+          [] Family = "xlong"     -> XLong
 
 ASSUME JsonSerialize(IOEnv.PLANOUT, SetToSeq(Plan))
 
